@@ -12,7 +12,7 @@ EXTENDS Machine, TLC, Json
 VARIABLES phase, p, a1, a2
 vars == <<phase, p, a1, a2>>
 
-\* ---- the four pre-states, built by public calls (the harness runs the same ops) ----
+\* ---- the five pre-states, built by public calls (the harness runs the same ops) ----
 PreOps(k) ==
   CASE k = 1 -> <<>>
     [] k = 2 -> << [op |-> "bus_write", a |-> 0, v |-> 17], [op |-> "bus_write", a |-> 239, v |-> 99],
@@ -37,6 +37,10 @@ PreOps(k) ==
                    [op |-> "set_j1", v |-> TRUE],                          \* -> SOURCE and flip-flop set in the board's status
                    [op |-> "bus_write", a |-> 249, v |-> 1], [op |-> "key_int"],
                    [op |-> "bus_write", a |-> 50, v |-> 50] >>
+    [] k = 5 -> << [op |-> "set_ai2", x |-> 1000], [op |-> "set_ai1", x |-> 300],   \* a master reset clears the ports but does not
+                   [op |-> "bus_write", a |-> 241, v |-> 200],                        \* re-evaluate the comparators: the next write of
+                   [op |-> "bus_write", a |-> 240, v |-> 90],                         \* the SAME byte (0) must still reach the board
+                   [op |-> "master_reset"], [op |-> "bus_write", a |-> 7, v |-> 7] >>
 Pre(k) == ApplyOps(MachineInit, PreOps(k))
 
 \* ---- the map-based reference -----------------------------------------------------
@@ -84,14 +88,15 @@ PairOK(b, x, y) ==
 \* RAM (checksum), inputs, outputs, mask, status, board ports, and the value read back at
 \* address a where the property documents the read.  For the board status registers F1/F3
 \* only "the read returns the register" is C10's business (their contents are C14's):
-\* the harness reports 1 iff read(a) equals the board's own getter.
+\* the harness reports 1 iff read(a) equals the board's own getter.  The last two fields are the board's status registers after
+\* the write ("writes to F0/F1 reach the board": the port value AND the comparator re-evaluation the board performs on every port write).
 ReadBack(b, a) == IF a \in {241, 243} THEN 1
                   ELSE IF a \in Documented THEN BusRead(b, a) ELSE -1
 Sig(b, a) ==
   << RamSum(b.ram), b.inr[0], b.inr[1], b.inr[2], b.inr[3], b.outr[0], b.outr[1], b.micr, b.misr,
-     b.bd.di1, b.bd.do1, b.bd.do2, ReadBack(b, a) >>
+     b.bd.di1, b.bd.do1, b.bd.do2, ReadBack(b, a), b.bd.dasr, b.bd.daisr >>
 
-Init == phase = "single" /\ p \in 1..4 /\ a1 = 0 /\ a2 = 0
+Init == phase = "single" /\ p \in 1..5 /\ a1 = 0 /\ a2 = 0
 Next == \/ /\ phase = "single" /\ a1 < 255 /\ a1' = a1 + 1 /\ UNCHANGED <<phase, p, a2>>
         \/ /\ phase = "single" /\ a1 = 255 /\ p = 2 /\ phase' = "pair" /\ a1' = 0 /\ a2' = 0 /\ p' = p
         \/ /\ phase = "pair" /\ a2 < 255 /\ a2' = a2 + 1 /\ UNCHANGED <<phase, p, a1>>
@@ -106,5 +111,5 @@ Emit ==
   ELSE PrintT(<<"REPLAY", ToJson([kind |-> "pair", p |-> p, a |-> a1, b |-> a2,
                   row |-> Sig(BusWrite(BusWrite(Pre(p), a1, V1), a2, V2), a1)])>>)
 
-ASSUME PrintT(<<"REPLAY", ToJson([kind |-> "pre", ops |-> [k \in 1..4 |-> PreOps(k)]])>>)
+ASSUME PrintT(<<"REPLAY", ToJson([kind |-> "pre", ops |-> [k \in 1..5 |-> PreOps(k)]])>>)
 =====================================================================
